@@ -159,45 +159,49 @@ for _n in (1, 2, 3):
 
 @static("C13", "Mesh1D/connectivity")
 def s_connectivity(tier):
-    """exhaustive: degrees 1..5 x nel 1..12 x both bases x dim_q in {1, 3} (quick: dim_q = 3 only)"""
+    """exhaustive: degrees 1..5 x nel 1..12 x both bases x (dim_q, dim_u); coordinate AND velocity meshes"""
     out = []
     bad = []
     count = 0
+    dims = ((3, None), (4, 3)) if tier == "quick" else ((1, None), (3, None), (4, 3), (7, 6))
     for basis in ("Lagrange", "Lagrange_Disc"):
         for degree in range(1, 6):
             for nel in range(1, 13):
-                for dim_q in ((3,) if tier == "quick" else (1, 3, 7)):
+                for dim_q, dim_u in dims:
                     count += 1
                     kv = lg.LagrangeKnotVector(degree, nel)
-                    m = Mesh1D(kv, degree + 1, dim_q=dim_q, derivative_order=1, basis=basis)
+                    m = Mesh1D(kv, degree + 1, dim_q=dim_q, derivative_order=1, basis=basis, dim_u=dim_u)
                     npe = degree + 1
                     nn = degree * nel + 1 if basis == "Lagrange" else npe * nel
-                    ok = m.nnodes == nn and m.nq == nn * dim_q
-                    # node sets of the elements
-                    nodesets = []
-                    for el in range(nel):
-                        qe = m.elDOF[el]
-                        nodes = set()
-                        for a in range(npe):
-                            dofs = qe[m.nodalDOF_element[a]]
-                            # the DOFs of element-node a are exactly the DOFs of one global node
-                            cand = [g for g in range(nn) if list(m.nodalDOF[g]) == list(dofs)]
-                            ok = ok and len(cand) == 1
-                            if cand:
-                                nodes.add(cand[0])
-                        ok = ok and len(nodes) == npe
-                        nodesets.append(nodes)
-                    for el in range(nel - 1):
-                        shared = nodesets[el] & nodesets[el + 1]
-                        ok = ok and (len(shared) == (1 if basis == "Lagrange" else 0))
-                        if basis == "Lagrange":
-                            ok = ok and shared == {(el + 1) * degree}
-                    for e1 in range(nel):
-                        for e2 in range(e1 + 2, nel):
-                            ok = ok and not (nodesets[e1] & nodesets[e2])
-                    # every global DOF belongs to exactly one node, every node to at least one element
-                    ok = ok and sorted(m.nodalDOF.ravel().tolist()) == list(range(m.nq))
-                    ok = ok and set().union(*nodesets) == set(range(nn))
+                    ok = m.nnodes == nn and m.nq == nn * dim_q and m.nu == nn * (dim_u or dim_q)
+                    for tag, elDOF, nodalDOF, nodalDOF_el, ntot in (("q", m.elDOF, m.nodalDOF, m.nodalDOF_element, m.nq), ("u", m.elDOF_u, m.nodalDOF_u, m.nodalDOF_element_u, m.nu)):
+                        nodesets = []
+                        for el in range(nel):
+                            qe = elDOF[el]
+                            nodes = set()
+                            for a in range(npe):
+                                dofs = qe[nodalDOF_el[a]]
+                                # the DOFs of element-node a are exactly the DOFs of one global node
+                                cand = [g for g in range(nn) if list(nodalDOF[g]) == list(dofs)]
+                                ok = ok and len(cand) == 1
+                                if cand:
+                                    nodes.add(cand[0])
+                            ok = ok and len(nodes) == npe
+                            # element el owns the nodes the basis functions of that element belong to
+                            first = el * degree if basis == "Lagrange" else el * npe
+                            ok = ok and nodes == set(range(first, first + npe))
+                            nodesets.append(nodes)
+                        for el in range(nel - 1):
+                            shared = nodesets[el] & nodesets[el + 1]
+                            ok = ok and (len(shared) == (1 if basis == "Lagrange" else 0))
+                            if basis == "Lagrange":
+                                ok = ok and shared == {(el + 1) * degree}
+                        for e1 in range(nel):
+                            for e2 in range(e1 + 2, nel):
+                                ok = ok and not (nodesets[e1] & nodesets[e2])
+                        # every global DOF belongs to exactly one node, every node to at least one element
+                        ok = ok and sorted(nodalDOF.ravel().tolist()) == list(range(ntot))
+                        ok = ok and set().union(*nodesets) == set(range(nn))
                     # quadrature points lie inside their element and the stored shape functions are the basis there
                     for el in range(nel):
                         lo, hi = kv.element_interval(el)
@@ -205,8 +209,8 @@ def s_connectivity(tier):
                         ok = ok and bool(np.allclose(m.N[el].sum(axis=1), 1.0, atol=1e-12) and np.allclose(m.N_xi[el].sum(axis=1), 0.0, atol=1e-9))
                         ok = ok and bool(np.isclose(m.wp[el].sum(), hi - lo, atol=1e-13))
                     if not ok:
-                        bad.append({"basis": basis, "degree": degree, "nel": nel, "dim_q": dim_q})
-    out.append({"name": f"neighbouring elements share exactly their boundary node / nothing ({count} meshes)", "ok": not bad, "backend": "exhaustive-enumeration", "show": "degrees 1..5 x nel 1..12 x {Lagrange, Lagrange_Disc}", "detail": str(bad[:5]), "replay": bad[0] if bad else None})
+                        bad.append({"basis": basis, "degree": degree, "nel": nel, "dim_q": dim_q, "dim_u": dim_u})
+    out.append({"name": f"neighbouring elements share exactly their boundary node / nothing, coordinate and velocity meshes ({count} meshes)", "ok": not bad, "backend": "exhaustive-enumeration", "show": "degrees 1..5 x nel 1..12 x {Lagrange, Lagrange_Disc} x (dim_q, dim_u)", "detail": str(bad[:5]), "replay": bad[0] if bad else None})
     return out
 
 
